@@ -219,6 +219,36 @@ func init() {
 			d.Do(Ev{"op": "size.parse", "in": B(in), "rule": rule, "T": []string{"s", "b"}[len(in)%2]})
 			d.S.Boundary()
 		}
+		// (0) the JSON object form is a number and a unit too: boundary products, and numbers written
+		// with fraction or exponent (the text grammar has neither, so they are refused - in
+		// particular they are never rounded through a float)
+		parseJ := func(in string) {
+			doc, wf := abstractDoc([]byte(in))
+			d.Do(Ev{"op": "size.parse", "in": B(in), "rule": 6, "T": []string{"s", "b"}[len(in)%2], "doc": doc, "wf": wf})
+			d.S.Boundary()
+		}
+		for ui, u := range allUnits {
+			if !d.Mine(ui + 3) {
+				continue
+			}
+			vals := []string{"0", "1", "1023", "1024", "18014398509481984", "18014398509481985", "9007199254740993", "18446744073709551615", "18446744073709551616"}
+			if m, ok := multOf(u); ok {
+				q := uint64(math.MaxUint64) / m
+				for _, v := range []uint64{q - 2, q - 1, q} {
+					vals = append(vals, strconv.FormatUint(v, 10))
+				}
+				if q < math.MaxUint64-2 {
+					vals = append(vals, strconv.FormatUint(q+1, 10), strconv.FormatUint(q+2, 10))
+				}
+			}
+			for _, v := range vals {
+				parseJ(`{"value":` + v + `,"unit":"` + u + `"}`)
+				parseJ(`{"unit":"` + u + `","value":` + v + `}`)
+			}
+			for _, v := range []string{"10.0", "1e3", "2.5e6", "9007199254740993.0", "4503599627370496.5", "1.5", "-1", "-0", "1E2", "0.0", "18446744073709551615.0", "1e19", "1e20", "0e0"} {
+				parseJ(`{"value":` + v + `,"unit":"` + u + `"}`)
+			}
+		}
 		// (1) for each unit: values around floor((2^64-1)/mult), around 0, powers of two and ten
 		width := 60
 		if d.Thorough() {
